@@ -6,7 +6,6 @@ QuickConfigs == { C(2, 3, 1, 2, FALSE), C(3, 3, 1, 2, FALSE), C(3, 2, 2, 2, FALS
                   C(3, 5, 1, 2, TRUE),  C(2, 5, 2, 2, TRUE),  C(4, 3, 1, 2, FALSE),
                   C(3, 4, 100, 2, FALSE) }
 ThoroughConfigs == QuickConfigs \cup
-                { C(4, 4, 1, 2, FALSE), C(4, 4, 2, 2, FALSE), C(3, 7, 1, 2, TRUE), C(4, 9, 2, 2, TRUE),
-                  C(3, 4, 1, 3, FALSE), C(5, 3, 1, 2, FALSE) }
+                { C(4, 4, 1, 2, FALSE), C(4, 4, 2, 2, FALSE), C(3, 7, 1, 2, TRUE), C(3, 3, 1, 3, FALSE) }
 VacuityConfigs == { C(3, 3, 1, 2, FALSE) }
 =============================================================================
